@@ -8,7 +8,7 @@ sep = rest.index("--")
 needs = " ".join(rest[:sep]); detected = " ".join(rest[sep+1:])
 d = f"/verif/seeded/{sid}"; os.makedirs(d, exist_ok=True)
 for f in ("patch.diff", "demo.py", "notes.md"):
-    shutil.copy(os.path.join(wt, mut, f), os.path.join(d, f))
+    shutil.copy(os.path.join(mut if mut.startswith("/") else os.path.join(wt, mut), f), os.path.join(d, f))
 conf = ""
 import glob
 for log in sorted(glob.glob("/tmp/wt/confirm*.log")):
